@@ -105,7 +105,8 @@ type EvPersist struct {
 	FLen   int    `json:"flen"`  // file length
 	CRCOK  bool   `json:"crcok"` // crc32 (IEEE, Go stdlib) of bytes[0:len-4] == trailing 4 bytes
 	Foot   Footer `json:"foot"`  // footer fields parsed at the fixed positions from the end
-	Bytes  B      `json:"bytes"` // file bytes when small enough for TLC to recompute the CRC, else []
+	Bytes  B      `json:"bytes"` // file bytes when small enough for TLC to decode the layout, else []
+	Path   string `json:"path"`  // a kept copy of that file (for the leaf decoders)
 }
 
 type EvOpen struct {
@@ -135,6 +136,8 @@ type EvMerge struct {
 	Exists bool   `json:"exists"`
 	FLen   int    `json:"flen"`
 	Engine bool   `json:"engine"` // an engine failure was injected into this merge
+	Bytes  B      `json:"bytes"`
+	Path   string `json:"path"`
 }
 
 type DvWalkVisit struct {
@@ -363,27 +366,29 @@ func probesFor(u *universe, r *rand.Rand, ndocs int, light bool) *Probes {
 const maxTermProbes = 48
 
 type Life struct {
-	tr       *Tracer
-	r        *rand.Rand
-	dir      string
-	segs     map[int]*hseg
-	nextSid  int
-	nextFil  int
-	files    map[int]*universe
-	fileN    map[int]int
-	fileZ    map[int]bool
-	fileL    map[int]map[int]bool
-	plugin   *zap.ZapPlugin
-	light    bool
-	injected bool   // an engine failure plan is active (failed builds / merges are explained by it)
-	afterNew func() // called right after ZapPlugin.New returned (before the observation)
-	parkGC   bool   // build-history mode: garbage collector parked, residues logged
-	maxTLC   int    // files up to this size are logged byte for byte
+	tr        *Tracer
+	r         *rand.Rand
+	dir       string
+	segs      map[int]*hseg
+	nextSid   int
+	nextFil   int
+	files     map[int]*universe
+	fileN     map[int]int
+	fileZ     map[int]bool
+	fileL     map[int]map[int]bool
+	plugin    *zap.ZapPlugin
+	light     bool
+	injected  bool   // an engine failure plan is active (failed builds / merges are explained by it)
+	afterNew  func() // called right after ZapPlugin.New returned (before the observation)
+	parkGC    bool   // build-history mode: garbage collector parked, residues logged
+	maxTLC    int    // files up to this size are logged byte for byte
+	nkept     int
+	keepFiles bool // corpus generation: files of a scenario are not removed at the next reset
 }
 
 func NewLife(tr *Tracer, r *rand.Rand, dir string) *Life {
 	return &Life{tr: tr, r: r, dir: dir, segs: map[int]*hseg{}, files: map[int]*universe{}, fileN: map[int]int{}, fileZ: map[int]bool{}, fileL: map[int]map[int]bool{},
-		plugin: &zap.ZapPlugin{}, maxTLC: 1500}
+		plugin: &zap.ZapPlugin{}, maxTLC: 0}
 }
 
 func (l *Life) Reset(lcm int, tag string) {
@@ -393,8 +398,10 @@ func (l *Life) Reset(lcm int, tag string) {
 		}
 	}
 	l.segs = map[int]*hseg{}
-	for k := range l.files {
-		os.Remove(l.path(k))
+	if !l.keepFiles {
+		for k := range l.files {
+			os.Remove(l.path(k))
+		}
 	}
 	l.files = map[int]*universe{}
 	l.fileN = map[int]int{}
@@ -403,6 +410,18 @@ func (l *Life) Reset(lcm int, tag string) {
 	l.nextSid, l.nextFil = 0, 0
 	zap.LegacyChunkMode = uint32(lcm)
 	l.tr.Emit(EvReset{Ev: "reset", LCM: lcm, Tag: tag})
+}
+
+// keepCopy stores the bytes of a small file where they stay until the trace has been validated.
+func (l *Life) keepCopy(data []byte) string {
+	l.nkept++
+	dir := filepath.Join(l.dir, "layout")
+	os.MkdirAll(dir, 0o755)
+	p := filepath.Join(dir, fmt.Sprintf("k%d.zap", l.nkept))
+	if err := os.WriteFile(p, data, 0o644); err != nil {
+		fatal2("%v", err)
+	}
+	return p
 }
 
 func (l *Life) path(k int) string { return filepath.Join(l.dir, fmt.Sprintf("f%d.zap", k)) }
@@ -508,6 +527,7 @@ func (l *Life) Persist(h *hseg) int {
 		}
 		if len(data) <= l.maxTLC {
 			ev.Bytes = B(data)
+			ev.Path = l.keepCopy(data)
 		}
 	}
 	l.tr.Emit(ev)
@@ -596,9 +616,16 @@ func (l *Life) Merge(ins []*hseg, drops []Drop, mode int) (int, bool) {
 		ev.Maps = append(ev.Maps, row)
 	}
 	ev.Size = ckInt(size)
+	ev.Bytes = B{}
 	if st, e := os.Stat(path); e == nil {
 		ev.Exists = true
 		ev.FLen = int(st.Size())
+		if err == nil && ev.Panic == "" && ev.FLen <= l.maxTLC {
+			if data, e := os.ReadFile(path); e == nil {
+				ev.Bytes = B(data)
+				ev.Path = l.keepCopy(data)
+			}
+		}
 	}
 	l.tr.Emit(ev)
 	ok := err == nil && ev.Panic == ""
